@@ -47,10 +47,10 @@ CLAIMS = {
              "shape): leaf languages (separator-free, right length, literals only through regex::escape under an explicit "
              "flag), tree-wildcard fragment = reference language R(left, right, rooted) over {SEP, NL, OTHER}, classes "
              "compiled case-sensitively, every `.` under dot-all, alternation = union of all branches, repetition = "
-             "body{m,n}, anchoring, and both Program impls match with their own program. Necessary conditions covering "
+             "body{m,n}, anchoring, both Program impls match with their own program, and the parser's bound specification (`repetition::bounds`, evaluated with a model of the nom combinators) gives the documented (lower, upper) for every documented form. Necessary conditions covering "
              "the whole mechanism; whole-expression language equality is not computed.",
         note=ASSUME + "Assumed: regex crate semantics; the nom grammar delivers the tokens the text denotes (only its "
-             "literal/escape sets are decided, in C18). Known finding: rooted tree wildcard in first position (pinned by an existing test).",
+             "literal/escape sets, in C18, and its repetition bounds are decided). Known finding: rooted tree wildcard in first position (pinned by an existing test).",
         ref="4 C01"),
     "C04": dict(
         technique="static analysis: capturing groups of the emitted program vs. capturing tokens on an expression catalogue; emission table of the encoder + regex algebra (group count / content), writer-reader table agreement, THIR evaluation of the capture indexers",
@@ -91,13 +91,14 @@ CLAIMS = {
         note=ASSUME + "Known: lower bound one too high with a tree wildcard inside a branch (`**/x/{a/**}`). Not decided: arithmetic over natural ranges, hence the containment law itself.",
         ref="4 C10"),
     "C12": dict(
-        technique="static analysis: has_root verdict vs. the language of the emitted program on an expression catalogue; THIR case-tables (rooting predicate, fold operators, sequencers) + emission table (initial rooting leaves inside SEP.Sigma*)",
+        technique="static analysis: has_root verdict vs. the language of the emitted program, and Token::literals vs. a reference of delimited dot components, on expression catalogues; THIR case-tables (rooting predicate, fold operators, sequencers) + emission table (initial rooting leaves inside SEP.Sigma*)",
         text="On every buildable catalogue expression, has_root = always implies every matched path begins with a separator, and no expression reports `sometimes` (catalogue shapes only). "
              "Decides: rooting leaves = {separator, rooted tree wildcard}; has_root folds with or/certainty and weakens "
              "optional repetitions; Starting selects first / all children; every rooting leaf emitted at an initial position "
              "only matches text beginning with a separator; semantic literal iff text is `.` or `..`; "
-             "has_semantic_literals = any over literals().",
-        note=ASSUME + "Not decided: Token::literals/components pipelines; `never sometimes` is C06's clause.",
+             "has_semantic_literals = any over literals(); on a catalogue of buildable expressions with `.` / `..` components at every "
+             "position and nesting, Token::literals (evaluated from THIR) yields a semantic literal whenever a delimited component is spelled `.` or `..`.",
+        note=ASSUME + "Not decided: Token::literals/components beyond the dot catalogue's shapes; `never sometimes` is C06's clause.",
         ref="4 C12"),
     "C06": dict(
         technique="static analysis: rule checker verdict (THIR evaluation on whole trees) vs. the documented rules computed independently by expansion, on an expression catalogue; THIR case-table evaluation of the three check functions against a reference decision table + loop-carried-dependence rule + evaluation of the traversal on abstract trees",
